@@ -51,6 +51,7 @@ class Disk:
         self.pause_at: typing.Optional[int] = None
         self.pause_match: tuple = ()
         self.on_pause: typing.Optional[typing.Callable[[], None]] = None
+        self.on_point: typing.Optional[typing.Callable[[], None]] = None  # scheduling hook (crashbox.threads)
 
     # -- per operation -----------------------------------------------------------------------
     def begin(self, crash: typing.Optional[dict], pause: typing.Optional[dict] = None) -> None:
@@ -88,7 +89,9 @@ class Disk:
         return path[len(self.root):] if path.startswith(self.root) else path
 
     def read_point(self, path) -> None:
-        """A tracked read is about to be opened (scheduling point between two processes)."""
+        """A tracked read is about to be opened (scheduling point between two processes / threads)."""
+        if self.on_point:
+            self.on_point()
         if self.pause_at is None:
             return
         name = os.fspath(path)
@@ -103,6 +106,8 @@ class Disk:
     def point(self, kind: str, path, size: typing.Optional[int] = None) -> typing.Optional[int]:
         """Register a crash point *before* the call. Returns the cut length for a write that is to be
         torn, None otherwise; does not return if the child is to die here."""
+        if self.on_point:
+            self.on_point()
         self.n += 1
         self.log.append([self.n, kind, self.rel(path), size])
         if self.crash_at == self.n:
@@ -137,7 +142,7 @@ def install(disk: Disk) -> None:
 
     def sim_open(file, mode='r', buffering=-1, encoding=None, errors=None, newline=None, closefd=True, opener=None):
         writing = any(c in mode for c in 'wax+')
-        if not writing and disk.pause_at is not None and disk.tracked(file):
+        if not writing and (disk.pause_at is not None or disk.on_point) and disk.tracked(file):
             disk.read_point(file)
         if not writing or not disk.tracked(file):
             return REAL['open'](file, mode, buffering, encoding, errors, newline, closefd, opener)
